@@ -8,6 +8,7 @@ import (
 	"context"
 	"fmt"
 	"sync"
+	"sync/atomic"
 	"time"
 
 	"github.com/libp2p/go-libp2p/core/connmgr"
@@ -191,6 +192,7 @@ type fcm struct {
 	tags                map[peer.ID]map[string]int
 	protected           map[peer.ID]map[string]bool
 	calls               map[string]int
+	onTag               atomic.Pointer[func(peer.ID, string)]
 }
 
 func newFcm() *fcm {
@@ -198,6 +200,9 @@ func newFcm() *fcm {
 }
 
 func (m *fcm) TagPeer(p peer.ID, tag string, v int) {
+	if f := m.onTag.Load(); f != nil {
+		(*f)(p, tag) // boundary callback: runs on the relay's goroutine, at the moment it tags
+	}
 	m.mu.Lock()
 	defer m.mu.Unlock()
 	m.calls["TagPeer"]++
